@@ -129,14 +129,12 @@ theorem graphEdgeCount_eq {a : GraphArgs} {pos : List (Rat × Rat)} (hfp : final
         simp only [Bool.and_false, Bool.false_and]
   · rw [if_neg hde, if_neg hde]
 
-theorem namesTexts_plain (n : Nat) (names : Option (List PyStr)) :
-    (namesTexts n names).map plainOf =
+theorem namesTexts_spec (n : Nat) (names : Option (List PyStr)) :
+    namesTexts n names =
       (match names with
        | none => []
-       | some names => (List.range n).map fun i => plainOf (names.getD i [])) := by
-  cases names with
-  | none => rfl
-  | some names => simp [namesTexts, plainOf_displayed, Function.comp_def]
+       | some names => (List.range n).map fun i => displayed (names.getD i [])) := by
+  cases names <;> rfl
 
 /-- `visualize_graph`: the returned string, read back, is a well-formed `svg` document that contains exactly the
     node shapes, edge paths and names the specification expects. -/
@@ -185,14 +183,14 @@ theorem visualizeGraph_docMeets (ν : Nums) (a : GraphArgs) (d : Drawing) (hν :
           ⟨0, 0, 0, namesTexts (graphN a) a.names⟩)).edgePaths),
       (((⟨0, 0, graphEdgeCount a pos, []⟩ : Summary).add
         ((nodesSummary a.probs (a.nodeOrder.getD (List.range (graphN a)))).add
-          ⟨0, 0, 0, namesTexts (graphN a) a.names⟩)).texts).map plainOf⟩ : Expected) = expectedGraph a := by
+          ⟨0, 0, 0, namesTexts (graphN a) a.names⟩)).texts)⟩ : Expected) = expectedGraph a := by
     have e3 : (expectedGraph a).edgePaths = graphEdgeCount a pos := hcount.symm
     have e1 : (expectedGraph a).circles =
         ((a.nodeOrder.getD (List.range (graphN a))).filter fun i => !isPie a.probs i).length := rfl
     have e2 : (expectedGraph a).sectors =
         ((a.nodeOrder.getD (List.range (graphN a))).filter fun i => isPie a.probs i).length * ncolsOf a.probs := rfl
-    have e4 : (expectedGraph a).texts = (namesTexts (graphN a) a.names).map plainOf := by
-      rw [namesTexts_plain]; rfl
+    have e4 : (expectedGraph a).texts = namesTexts (graphN a) a.names := by
+      rw [namesTexts_spec]; rfl
     cases hx : expectedGraph a with
     | mk c s e t =>
       rw [hx] at e1 e2 e3 e4
@@ -310,9 +308,9 @@ theorem visualizeBigraph_docMeets (ν : Nums) (a : BigraphArgs) (d : Drawing) (h
       ((List.range a.nRow).filter fun i => isPie a.probsRow i).length * ncolsOf a.probsRow +
         ((List.range a.nCol).filter fun i => isPie a.probsCol i).length * ncolsOf a.probsCol,
       bigraphEdgeCount a,
-      (namesTexts a.nRow a.namesRow).map plainOf ++ (namesTexts a.nCol a.namesCol).map plainOf⟩ := by
+      namesTexts a.nRow a.namesRow ++ namesTexts a.nCol a.namesCol⟩ := by
     unfold expectedBigraph bigraphEdgeCount residPairs
-    simp only [← hes, List.length_map, namesTexts_plain]
+    simp only [← hes, List.length_map, namesTexts_spec]
     rfl
   rw [hexp]
   simpa [Summary.add, nodesSummary] using hdoc
@@ -409,24 +407,14 @@ theorem visualizeBigraph_struct (ν : Nums) (a : BigraphArgs) (d : Drawing) (hν
 theorem visualizeDendrogram_struct (ν : Nums) (a : DendroArgs) (d : Drawing) (hν : SafeNums ν)
     (hcol : SafeStr a.color) (hcols : AllSafe a.colors) (h : visualizeDendrogram ν a = .ok d) :
     ∃ doc, piecesLexOk doc = true ∧ writeFile a.filename doc = .ok d := by
-  unfold visualizeDendrogram svgDendrogram at h
-  simp only [bind, Except.bind, pure, Except.pure] at h
+  unfold visualizeDendrogram at h
+  simp only [bind, Except.bind] at h
   split at h
   · simp at h
   rename_i svg hsvg
-  split at hsvg
-  · simp at hsvg
-  rename_i index hindex
-  split at hsvg
-  · simp at hsvg
-  rename_i text htext
-  split at hsvg
-  · simp at hsvg
-  rename_i paths hpaths
-  simp only [Except.ok.injEq] at hsvg
-  subst hsvg
+  obtain ⟨cut, index, text, paths, _, _, _, htext, hpaths, rfl⟩ := svgDendrogram_ok hsvg
   have hI : Inner (text ++ paths) := Inner.append (dendroNames_inner hν a index htext)
-    (dendroTree_inner hν a hcol hcols index hpaths)
+    (dendroTree_inner hν a hcol hcols cut index hpaths)
   exact ⟨_, svgDoc_lexOk hν true false hI, h⟩
 
 end SkNet.Svg
